@@ -365,7 +365,7 @@ func c11Run(b core.Batch, r *core.Recorder) {
 func c11Plan(tier string, seed int64) []core.Batch {
 	n, w := 500, 21
 	if tier == "thorough" {
-		n, w = 8000, 300
+		n, w = 30000, 1000
 	}
 	return []core.Batch{
 		{Name: "api", TimeoutS: 1800, Args: map[string]any{"part": "api", "n": n}},
@@ -386,6 +386,6 @@ func init() {
 		Run:         c11Run,
 		Parallel:    4,
 		Floors: map[string]map[string]int64{"quick": {"accepted_dns": 50, "accepted_ipv4": 50, "accepted_ipv6": 50, "expiry_cases": 40, "burst_cases": 15, "handshakes_verified": 40},
-			"thorough": {"accepted_dns": 1000, "accepted_ipv4": 1000, "accepted_ipv6": 1000, "expiry_cases": 40, "burst_cases": 15, "handshakes_verified": 400}},
+			"thorough": {"accepted_dns": 5000, "accepted_ipv4": 5000, "accepted_ipv6": 5000, "expiry_cases": 40, "burst_cases": 15, "handshakes_verified": 1500}},
 	})
 }
